@@ -86,8 +86,11 @@ func VerifC09Loader() {
 			known[j] = true
 		}
 	}
-	if rt.Choose(2) == 1 {
+	switch rt.Choose(3) { // the unknown head after or before the known ones (seed C09-k: the filter must skip it, not stop at it)
+	case 1:
 		heads = append(heads, ids[n+1])
+	case 2:
+		heads = append([]string{ids[n+1]}, heads...)
 	}
 	// what the requester already has: ancestors-or-self of its known heads
 	has := make([]bool, n+1)
